@@ -149,7 +149,7 @@ theorem filter_sound : ∀ (n : Nat) (i : Bytes) (t : Tag) (r : Bytes), filter n
           refine ⟨.not f, 0x28 :: 0x21 :: (s ++ [0x29]), ?_, ?_, ?_⟩
           · rw [e1, e4, e5, e3]; simp
           · simp only [G]; exact ⟨s, hg, rfl⟩
-          · simp [Tag.toTlv, Tag.toTlvList, toTlv, ht]
+          · simp [Tag.toTlv, toTlv, ht]
         · -- item
           obtain ⟨f, s, e5, hg, ht⟩ := item_sound h2
           exact ⟨f, 0x28 :: (s ++ [0x29]), by rw [e1, e5, e3]; simp, G_of_item hg, ht⟩
